@@ -184,11 +184,18 @@ def simpleCmd (w : World) (rec : Rec) (h : HelpTables) :
               | inner => simpleCmd w rec h n inner cwd remote
           else builtinVerdict w rec h.helpWords h.helpFlags2 h.helpFlagsLast tokens cwd remote
 
-/-- the scanner's contribution: each found text is analysed and wrapped `cmdsub: …` -/
-def scanDecisions (rec : Rec) (s : String) (cwd : String) (remote : Bool) : List Decision :=
-  (scan s).map fun inner =>
-    let d := rec inner cwd remote
+/-- the decision for one scanner item -/
+def scanItemDecision (rec : Rec) (cwd : String) (remote : Bool) : ScanItem → Decision
+  | .sub inner reliable =>
+    let d0 := rec inner cwd remote
+    -- text the scanner could not delimit like bash does: an allow is not trusted
+    let d := if !reliable && d0.action = .allow then ⟨.ask, "unanalyzable text: " ++ inner⟩ else d0
     if d.action ≠ .allow then ⟨d.action, "cmdsub: " ++ d.reason⟩ else d
+  | .unanalyzable text => ⟨.ask, "cmdsub: unanalyzable text: " ++ text⟩
+
+/-- `_analyze_string_cmdsubs`: each found text is analysed and wrapped `cmdsub: …` -/
+def scanDecisions (rec : Rec) (s : String) (cwd : String) (remote : Bool) : List Decision :=
+  (scanItems s).map (scanItemDecision rec cwd remote)
 
 /-- non-allow decisions get a prefix, allow ones pass unchanged -/
 def wrapNonAllow (pfx : String) (d : Decision) : Decision :=
@@ -199,6 +206,17 @@ def scanArg (rec : Rec) (arg : Option String) (cwd : String) (remote : Bool) : L
   match Py.truthy arg with
   | some a => scanDecisions rec a cwd remote
   | none => []
+
+/-- `_analyze_expansion_part` for the kinds that only carry raw text: `${name[sub] op arg}`,
+    `${#name[sub]}`, `${!name[sub]…}`, `$(( … ))` (texts taken from the word's source), `$[ … ]` -/
+def expansionTexts (rec : Rec) (wd : Word) (p : Part) (cwd : String) (remote : Bool) : List Decision :=
+  match p with
+  | .param name _ arg => scanArg rec (some name) cwd remote ++ scanArg rec arg cwd remote
+  | .paramLen name => scanArg rec (some name) cwd remote
+  | .paramIndirect name _ arg => scanArg rec (some name) cwd remote ++ scanArg rec arg cwd remote
+  | .arith _ => (arithTexts wd.value).flatMap fun t => scanDecisions rec t cwd remote
+  | .arithDeprecated expr => scanArg rec (some expr) cwd remote
+  | _ => []
 
 def isOperator : Node → Bool
   | .operator _ => true
@@ -325,8 +343,10 @@ def aNode : Node → String → Bool → Decision
   | .condExpr b rs, cwd, remote =>
     let ds := aOptCond b cwd remote ++ aRedirects rs cwd remote
     if ds.isEmpty then ⟨.allow, "conditional"⟩ else combine ds
-  | .arithCmd e rs, cwd, remote =>
-    let ds := aOptArith e cwd remote ++ aRedirects rs cwd remote
+  | .arithCmd e raw rs, cwd, remote =>
+    let ds := (match raw with
+      | some t => scanDecisions rec t cwd remote
+      | none => aOptArith e cwd remote) ++ aRedirects rs cwd remote
     if ds.isEmpty then ⟨.allow, "arithmetic"⟩ else combine ds
   | .comment, _, _ => ⟨.allow, "comment"⟩
   | .empty, _, _ => ⟨.allow, "empty"⟩
@@ -367,23 +387,30 @@ def aCmdParts (ctx : CmdCtx) (wd : Word) (pos : Nat) : List Part → String → 
        let d := aNode cmd cwd remote
        if d.action ≠ .allow then [⟨d.action, "command substitution: " ++ d.reason⟩]
        else d :: injectionRisk w ctx wd pos
-     | .param _ _ arg => scanArg rec arg cwd remote
-     | _ => [])
+     | .array elems => aWords elems cwd remote
+     | other => expansionTexts rec wd other cwd remote)
     ++ aCmdParts ctx wd pos ps cwd remote
 
 /-- `_analyze_word_parts` -/
-def aWordParts : List Part → String → Bool → List Decision
+def aWordParts (wd : Word) : List Part → String → Bool → List Decision
   | [], _, _ => []
   | p :: ps, cwd, remote =>
     (match p with
      | .cmdsub cmd => [wrapNonAllow "cmdsub: " (aNode cmd cwd remote)]
      | .procsub dir cmd => [wrapNonAllow ("procsub " ++ dir ++ "(...): ") (aNode cmd cwd remote)]
-     | .param _ _ arg => scanArg rec arg cwd remote
-     | _ => [])
-    ++ aWordParts ps cwd remote
+     | .array elems => aWords elems cwd remote
+     | other => expansionTexts rec wd other cwd remote)
+    ++ aWordParts wd ps cwd remote
 
 def aWord : Word → String → Bool → List Decision
-  | .mk _ ps, cwd, remote => aWordParts ps cwd remote
+  | .mk v ps, cwd, remote => aWordParts (.mk v ps) ps cwd remote
+
+/-- `_analyze_cond_operand`: the parts, or the raw text of an operand without parts -/
+def aCondOperand : Word → String → Bool → List Decision
+  | .mk v ps, cwd, remote =>
+    if !ps.isEmpty then aWordParts (.mk v ps) ps cwd remote
+    else if Py.hasChar v '\'' then []
+    else scanArg rec (some v) cwd remote
 
 def aWords : List Word → String → Bool → List Decision
   | [], _, _ => []
@@ -411,12 +438,13 @@ def aRedirects : List Redir → String → Bool → List Decision
 
 def aCasePats : List CasePat → String → Bool → List Decision
   | [], _, _ => []
-  | .mk _ body :: ps, cwd, remote => aOptNode body cwd remote ++ aCasePats ps cwd remote
+  | .mk pat body :: ps, cwd, remote =>
+    scanArg rec (some pat) cwd remote ++ aOptNode body cwd remote ++ aCasePats ps cwd remote
 
 /-- `_analyze_cond_node` -/
 def aCond : Cond → String → Bool → List Decision
-  | .unary _ o, cwd, remote => aWord o cwd remote
-  | .binary _ l r, cwd, remote => aWord l cwd remote ++ aWord r cwd remote
+  | .unary _ o, cwd, remote => aCondOperand o cwd remote
+  | .binary _ l r, cwd, remote => aCondOperand l cwd remote ++ aCondOperand r cwd remote
   | .and l r, cwd, remote => aCond l cwd remote ++ aCond r cwd remote
   | .or l r, cwd, remote => aCond l cwd remote ++ aCond r cwd remote
   | .not o, cwd, remote => aCond o cwd remote
